@@ -59,7 +59,28 @@ ONE = z3.RealVal(1)
 DEG_LO, DEG_HI = Fr(17453292, 10**9), Fr(17453293, 10**9)
 
 
+class PoisonUse(Exception):
+    """the code under test used an array after handing it to a library call with overwrite_*=True"""
+
+
+class Poison:
+    """content of an argument overwritten by a library call (overwrite_b=True): any use raises"""
+
+    def _use(self, *a, **k):
+        raise PoisonUse('use of an array after it was handed over with overwrite_b=True (its content is unspecified)')
+    __add__ = __radd__ = __sub__ = __rsub__ = __mul__ = __rmul__ = __truediv__ = __rtruediv__ = _use
+    __neg__ = __pos__ = __abs__ = __pow__ = __rpow__ = __float__ = __lt__ = __le__ = __gt__ = __ge__ = _use
+    __matmul__ = __rmatmul__ = _use
+
+    def __repr__(self):
+        return '<poison>'
+
+
+POISON = Poison()
+
 def rat(x):
+    if type(x) is Poison:
+        x._use()
     if isinstance(x, bool):
         raise TypeError('bool in arithmetic')
     if isinstance(x, (int, np.integer)):
